@@ -20,15 +20,28 @@ pub struct Scn {
 
 pub struct C13;
 
-/// No start times, pacing or carousel here: every published, unfinished object is ready.
-fn workload(
-    queues: Vec<(u32, u32)>,
-    interleave: u8,
-    full_fdt: bool,
-    objs: Vec<(u32 /*prio*/, u32 /*blocks*/, u32 /*transfers*/, Option<u64> /*add after pkt*/)>,
-    seed: u64,
-    burst: Option<u32>,
-) -> SenderScn {
+/// One object of a workload.
+#[derive(Clone, Debug)]
+struct W {
+    prio: u32,
+    /// number of source symbols (E = 4 bytes) and maximum source block length
+    symbols: u32,
+    b: u32,
+    transfers: u32,
+    /// added after this packet index (None: before the first read)
+    after: Option<u64>,
+    /// transfer start time, us after the start of the run
+    start_us: Option<u64>,
+    /// carousel (delay ms) and the packet index after which the object is removed
+    carousel: Option<(u64, u64)>,
+}
+
+fn w(prio: u32, blocks: u32, transfers: u32, after: Option<u64>) -> W {
+    W { prio, symbols: blocks * 3, b: 3, transfers, after, start_us: None, carousel: None }
+}
+
+/// No pacing here. Without start times and carousel every published, unfinished object is ready.
+fn workload(queues: Vec<(u32, u32)>, interleave: u8, full_fdt: bool, objs: Vec<W>, seed: u64, burst: Option<u32>) -> SenderScn {
     let mut spec = SenderSpec::basic(OtiSpec::new(Scheme::NoCode, 1400, 64, 0, true));
     spec.queues = queues;
     spec.interleave = interleave;
@@ -36,25 +49,34 @@ fn workload(
     let mut objects = Vec::new();
     let mut ops = Vec::new();
     let mut late = Vec::new();
-    for (i, (prio, blocks, transfers, after)) in objs.iter().enumerate() {
+    let mut removals = Vec::new();
+    for (i, x) in objs.iter().enumerate() {
         let e = 4u16;
-        let b = 3u32;
-        let len = if *blocks == 0 { 0 } else { (*blocks as usize * b as usize) * e as usize - 1 };
+        let len = if x.symbols == 0 { 0 } else { x.symbols as usize * e as usize - 1 };
         let mut o = ObjectSpec::basic(len, seed.wrapping_add(i as u64), i);
         let scheme = [Scheme::NoCode, Scheme::Rs28, Scheme::RaptorQ][(seed as usize + i) % 3];
-        o.oti = Some(OtiSpec::new(scheme, e, b, if scheme == Scheme::NoCode { 0 } else { 1 }, true));
-        o.prio = *prio;
-        o.max_transfer_count = *transfers;
+        o.oti = Some(OtiSpec::new(scheme, e, x.b, if scheme == Scheme::NoCode { 0 } else { 1 }, true));
+        o.prio = x.prio;
+        o.max_transfer_count = x.transfers;
+        o.start_ms = x.start_us.map(|u| T0_MS + u / 1000);
+        if let Some((d, k)) = x.carousel {
+            o.carousel = Some(CarouselSpec::DelayMs(d));
+            removals.push((i, k));
+        }
         objects.push(o);
-        match after {
+        match x.after {
             None => ops.push(TimedOp { when: When::AtUs(0), op: Op::Add(i) }),
-            Some(k) => late.push((i, *k)),
+            Some(k) => late.push((i, k)),
         }
     }
     ops.push(TimedOp { when: When::AtUs(0), op: Op::Publish });
     for (i, k) in late {
         ops.push(TimedOp { when: When::AfterPkt(k), op: Op::Add(i) });
         ops.push(TimedOp { when: When::AfterPkt(k), op: Op::Publish });
+    }
+    for (i, k) in removals {
+        ops.push(TimedOp { when: When::AfterPkt(k), op: Op::Remove(i) });
+        ops.push(TimedOp { when: When::AtUs(60_000), op: Op::Remove(i) });
     }
     let mut poll = PollSpec::simple(1000);
     poll.burst = burst;
@@ -65,13 +87,13 @@ fn workload(
 
 /// Small grid enumerated by index: queues x multiplex x interleave x object mixes.
 fn enumerated(idx: u64) -> Option<SenderScn> {
-    let mixes: Vec<Vec<(u32, u32, u32, Option<u64>)>> = vec![
-        vec![(0, 2, 1, None), (0, 3, 1, None), (0, 1, 1, None)],
-        vec![(0, 4, 1, None), (1, 2, 1, None), (0, 2, 1, Some(5))],
-        vec![(1, 3, 1, None), (0, 2, 1, Some(3)), (2, 2, 1, None), (0, 0, 1, Some(9))],
-        vec![(0, 2, 2, None), (0, 2, 1, None), (1, 1, 1, None), (1, 3, 1, None)],
-        vec![(2, 3, 1, None), (1, 3, 1, Some(4)), (0, 3, 1, Some(8))],
-        vec![(0, 1, 1, None), (0, 1, 1, None), (0, 1, 1, None), (0, 4, 1, None)],
+    let mixes: Vec<Vec<W>> = vec![
+        vec![w(0, 2, 1, None), w(0, 3, 1, None), w(0, 1, 1, None)],
+        vec![w(0, 4, 1, None), w(1, 2, 1, None), w(0, 2, 1, Some(5))],
+        vec![w(1, 3, 1, None), w(0, 2, 1, Some(3)), w(2, 2, 1, None), w(0, 0, 1, Some(9))],
+        vec![w(0, 2, 2, None), w(0, 2, 1, None), w(1, 1, 1, None), w(1, 3, 1, None)],
+        vec![w(2, 3, 1, None), w(1, 3, 1, Some(4)), w(0, 3, 1, Some(8))],
+        vec![w(0, 1, 1, None), w(0, 1, 1, None), w(0, 1, 1, None), w(0, 4, 1, None)],
     ];
     let n_mix = mixes.len() as u64;
     let total = n_mix * 4 * 4 * 2 * 2;
@@ -83,7 +105,7 @@ fn enumerated(idx: u64) -> Option<SenderScn> {
     let interleave = 1 + ((idx / (n_mix * 4)) % 4) as u8;
     let full = (idx / (n_mix * 16)) % 2 == 0;
     let burst = if (idx / (n_mix * 32)) % 2 == 0 { None } else { Some(3) };
-    let prios: BTreeSet<u32> = mix.iter().map(|m| m.0).collect();
+    let prios: BTreeSet<u32> = mix.iter().map(|m| m.prio).collect();
     let queues = prios.iter().map(|p| (*p, mult)).collect();
     Some(workload(queues, interleave, full, mix.clone(), idx, burst))
 }
@@ -101,16 +123,25 @@ pub fn gen(idx: u64, rng: &mut Rng, _tier: Tier) -> Scn {
     queues.sort();
     let n = rng.range(1, 6) as usize;
     let mut objs = Vec::new();
+    // half of the seeded workloads also have start times and carousel objects (not-ready objects in the
+    // queues) and uneven block partitions
+    let timed = rng.chance(0.5);
     for _ in 0..n {
-        objs.push((
-            queues[rng.below(nq as u64) as usize].0,
-            rng.range(0, 4) as u32,
-            *rng.pick(&[1u32, 1, 2]),
-            if rng.chance(0.35) { Some(rng.range(1, 40)) } else { None },
-        ));
+        let b = if timed { rng.range(2, 5) as u32 } else { 3 };
+        let symbols = if timed { rng.range(0, 4 * b as u64 + 2) as u32 } else { rng.range(0, 4) as u32 * 3 };
+        let carousel = if timed && rng.chance(0.25) { Some((*rng.pick(&[0u64, 1, 3, 8]), rng.range(5, 80))) } else { None };
+        objs.push(W {
+            prio: queues[rng.below(nq as u64) as usize].0,
+            symbols,
+            b,
+            transfers: if carousel.is_some() { 1 } else { *rng.pick(&[1u32, 1, 2]) },
+            after: if rng.chance(0.35) { Some(rng.range(1, 40)) } else { None },
+            start_us: if timed && rng.chance(0.4) { Some(rng.range(0, 12) * 1000 + 500) } else { None },
+            carousel,
+        });
     }
-    if objs.iter().all(|o| o.3.is_some()) {
-        objs[0].3 = None;
+    if objs.iter().all(|o| o.after.is_some()) {
+        objs[0].after = None;
     }
     let s = workload(
         queues,
@@ -136,12 +167,14 @@ pub fn oracle(scn: &SenderScn, ctx: &Ctx, trace: &SenderTrace) {
         until: u64,
     }
     let mut ready: Vec<Ready> = Vec::new();
+    // the first-transfer readiness of every object, for the FIFO rule
+    let mut first_ready: Vec<Ready> = Vec::new();
     for (i, o) in scn.objects.iter().enumerate() {
         let a = match add_seq(trace, i) {
             Some(a) => a,
             None => continue,
         };
-        let from = if scn.spec.full_fdt {
+        let mut from = if scn.spec.full_fdt {
             match trace.ops.iter().find(|r| r.seq > a && r.result == OpResult::Published(true)) {
                 Some(r) => r.seq,
                 None => continue,
@@ -149,17 +182,37 @@ pub fn oracle(scn: &SenderScn, ctx: &Ctx, trace: &SenderTrace) {
         } else {
             a
         };
+        // a transfer start time: definitely ready from the first poll strictly after it
+        if let Some(ms) = o.start_ms {
+            match trace.polls.iter().find(|p| p.t_us > ms * 1000 && p.seq_begin > from) {
+                Some(p) => from = from.max(p.seq_begin),
+                None => continue,
+            }
+        }
+        let removed = removal_seq(trace, i).unwrap_or(u64::MAX);
         let mine: Vec<&Transfer> = tr.list.iter().filter(|t| t.obj == i).collect();
+        let last_pkt_seq = |t: &Transfer| t.pkts.last().map(|p| trace.pkts[*p].seq);
+        if o.carousel.is_some() {
+            // definitely ready: until the last packet of the first transfer, then during each later transfer
+            // (between two transfers it waits for its carousel delay)
+            let until = mine.first().and_then(|t| last_pkt_seq(t)).unwrap_or(u64::MAX).min(removed);
+            ready.push(Ready { obj: i, prio: o.prio, from, until });
+            first_ready.push(Ready { obj: i, prio: o.prio, from, until });
+            for t in mine.iter().skip(1) {
+                let until = last_pkt_seq(t).unwrap_or(t.start_seq).min(removed);
+                ready.push(Ready { obj: i, prio: o.prio, from: t.start_seq, until });
+            }
+            continue;
+        }
         let until = if mine.len() as u32 >= o.max_transfer_count {
             // last packet of its final transfer
-            mine.last()
-                .and_then(|t| t.pkts.last())
-                .map(|p| trace.pkts[*p].seq)
-                .unwrap_or(u64::MAX)
+            mine.last().and_then(|t| last_pkt_seq(t)).unwrap_or(u64::MAX)
         } else {
             u64::MAX
-        };
+        }
+        .min(removed);
         ready.push(Ready { obj: i, prio: o.prio, from, until });
+        first_ready.push(Ready { obj: i, prio: o.prio, from, until });
     }
     // 1. strict priority
     for p in &trace.pkts {
@@ -184,26 +237,29 @@ pub fn oracle(scn: &SenderScn, ctx: &Ctx, trace: &SenderTrace) {
             break;
         }
     }
-    // 2. FIFO admission per queue (by first StartTransfer)
-    let mut by_queue: BTreeMap<u32, Vec<(u64, u64, usize)>> = BTreeMap::new();
-    for r in &ready {
-        if let Some(t) = tr.list.iter().find(|t| t.obj == r.obj) {
-            by_queue.entry(r.prio).or_default().push((r.from, t.start_seq, r.obj));
-        }
-    }
-    for (q, v) in &by_queue {
-        for a in v {
-            for b in v {
-                // a became ready strictly before b yet b started first: only a violation when a was
-                // ready before b started
-                if a.0 < b.0 && b.1 < a.1 && a.0 < b.1 {
-                    violate(
-                        ctx,
-                        "C13/not-fifo",
-                        "-",
-                        format!("queue {}: object {} was ready first (event {}) but object {} started before it", q, a.2, a.0, b.2),
-                    );
-                }
+    // 2. FIFO admission per queue: when an object starts, no object of the same queue that was added before
+    // it is ready and still waiting for its first transfer
+    for b in &first_ready {
+        let sb = match tr.list.iter().find(|t| t.obj == b.obj) {
+            Some(t) => t.start_seq,
+            None => continue,
+        };
+        let add_b = add_seq(trace, b.obj).unwrap_or(u64::MAX);
+        for a in &first_ready {
+            if a.obj == b.obj || a.prio != b.prio || add_seq(trace, a.obj).unwrap_or(u64::MAX) >= add_b {
+                continue;
+            }
+            let sa = tr.list.iter().find(|t| t.obj == a.obj).map(|t| t.start_seq).unwrap_or(u64::MAX);
+            if a.from < sb && sb < sa && sb < a.until {
+                violate(
+                    ctx,
+                    "C13/not-fifo",
+                    "-",
+                    format!(
+                        "queue {}: object {} (added first, ready since event {}) is still waiting when object {} starts at event {}",
+                        a.prio, a.obj, a.from, b.obj, sb
+                    ),
+                );
             }
         }
     }
